@@ -43,3 +43,6 @@ MANIFEST_ENTRY = {
             "filters, chunk limits from 1 up, ranges/bins/log/weights for histograms.",
     "note": "Level is exploration because the end-to-end statement rests on numpy code that is only swept, not proved. Trusted: contract of the unchunked call, np.zeros / slice assignment model, real arithmetic for floats.",
 }
+
+MANIFEST_ENTRY['text'] += ' The statistic kernel glue/utils/array.py:compute_statistic is proved to apply the requested (NaN-ignoring when filtered) function to the values restricted to a fresh keep = [finite] & [positive] & [mask], with neither array handed in written.'
+TRUSTED_BASE.append('statistic kernel contract: numpy calls are provenance-recording stubs (see C01); what the numpy reducers compute is explored by the bounded sweep')
